@@ -15,7 +15,12 @@
 (*   build      (src, res [, tree])        precompilation only             *)
 (*   deep       (family, len, res)         a maximal-nesting input: totality*)
 (*   errmsg     (e, text)                  Display of an error value       *)
+(*              (diagnostic only: never rejects)                            *)
 (*   context_map (slot, entries, res, post) the context_map! macros          *)
+(*   evaltree   (slot, tree, mode, res, post, log) an evaluation of a tree  *)
+(*              recorded by the hooks of /repo while its own test suite ran *)
+(*              (harness convert); user functions are oracles: log carries  *)
+(*              their results                                               *)
 (* A trace is accepted iff every event is matched: the POSTCONDITION       *)
 (* compares the number of consumed events with the length of the trace and *)
 (* prints the first unmatched event otherwise.                             *)
@@ -106,7 +111,11 @@ EvGetValue ==
 EvDeep == /\ IsEvent("deep") /\ E.res.p \in {"val", "err"} /\ UNCHANGED <<ctxs, log>>
 
 \* the Display text of an error value (independent of how the error arose)
-EvErrMsg == /\ IsEvent("errmsg") /\ (Modelled(E.e) => ErrorMessage(E.e) = E.text) /\ UNCHANGED <<ctxs, log>>
+\* No property fixes the wording of messages, so a difference is reported as a diagnostic line (DESIGN.md rule 4.5) and
+\* the event is consumed: it never rejects a trace.
+EvErrMsg == /\ IsEvent("errmsg")
+            /\ (Modelled(E.e) /\ ErrorMessage(E.e) # E.text => PrintT(<<"MESSAGE-DRIFT", l, ErrorMessage(E.e), E.text>>))
+            /\ UNCHANGED <<ctxs, log>>
 
 \* the context_map! / math_consts_context! macros: every entry is applied in order (set_value / set_function), the result is
 \* the first error; entries: sequence of [k: name, f: BOOLEAN (a function), v: value]
@@ -123,6 +132,39 @@ EvContextMap ==
      /\ SameVars(r.ctx, E.post)
      /\ ctxs' = [ctxs EXCEPT ![E.slot] = r.ctx]
   /\ UNCHANGED log
+
+\* ---- executions of /repo's own tests (hook traces): a tree, the context before (event ctx), the user-function
+\* calls with their results.  The specification evaluates the tree itself; the recorded calls answer the user
+\* functions (OracleResult) and must be exactly the calls the specification makes, in its order.
+OracleOf(r) == IF r.p = "val" THEN Ok(r.v) ELSE Er(r.e)
+WithOracle(c, lg) ==
+  [c EXCEPT !.funcs = [n \in DOMAIN c.funcs |->
+     IF c.funcs[n].b = "oracle"
+     THEN LET idx == SelectSeq([i \in 1..Len(lg) |-> i], LAMBDA i : lg[i].n = n) IN
+          BehOracle([j \in 1..Len(idx) |-> [a |-> lg[idx[j]].a, r |-> OracleOf(lg[idx[j]].r)]])
+     ELSE c.funcs[n]]]
+RECURSIVE Evaluable(_)
+Evaluable(t) ==       \* every node has its operator's number of operands (tree/mod.rs never checks this before evaluation)
+  /\ t.o # "Root"
+  /\ (t.o \in BinNodes => Len(t.k) = 2)
+  /\ (t.o \in {"Neg", "Not", "Call"} => Len(t.k) = 1)
+  /\ (t.o \in {"Const", "Read", "Write", "Empty"} => Len(t.k) = 0)
+  /\ (t.o = "Chain" => Len(t.k) > 0)
+  /\ \A i \in 1..Len(t.k) : Evaluable(t.k[i])
+EvEvalTree ==
+  /\ IsEvent("evaltree")
+  /\ LET c == WithOracle(ctxs[E.slot], E.log) IN
+     IF Evaluable(E.tree)
+     THEN LET x == Eval(E.tree, St(c, <<>>), E.mode) IN
+          /\ ResMatches(PatOf(x.r), E.res, FALSE)
+          /\ SameVars(x.st.ctx, E.post)
+          /\ SameLog(x.st.log, E.log)
+          /\ ctxs' = [ctxs EXCEPT ![E.slot] = x.st.ctx]
+     \* an operator without its operands: every evaluation fails (C13); which error is not fixed
+     ELSE /\ (E.deficient => E.res.p = "err")
+          /\ E.res.p # "panic"
+          /\ ctxs' = [ctxs EXCEPT ![E.slot] = [@ EXCEPT !.vars = VarsOfSeq(E.post.vars), !.nb = E.post.nb]]
+  /\ log' = <<>>
 
 Simple(name, F(_)) ==
   /\ IsEvent(name)
@@ -152,7 +194,7 @@ EvClone ==
 \* the state after the last matched event is also kept in a TLC register, so that the diagnosis of a rejection can
 \* show what the specification would have allowed
 Track == TLCSet(1, l') /\ TLCSet(2, ctxs')          \* evaluated last: only when every conjunct of the event held
-Next == (EvCtx \/ EvDeep \/ EvErrMsg \/ EvContextMap \/ EvBuild \/ EvEval \/ EvSetValue \/ EvGetValue \/ EvClearVariables \/ EvClearFunctions \/ EvClear
+Next == (EvCtx \/ EvEvalTree \/ EvDeep \/ EvErrMsg \/ EvContextMap \/ EvBuild \/ EvEval \/ EvSetValue \/ EvGetValue \/ EvClearVariables \/ EvClearFunctions \/ EvClear
         \/ EvSetFunction \/ EvSetBuiltins \/ EvClone) /\ Track
 
 \* reached position (register 1) = number of events + 1  <=>  every event was matched
